@@ -215,7 +215,8 @@ def _violations(failures):
 
 
 def _mutations():
-  """Corrupted outputs that Trace_Relabel must reject (the binding self-test), one per clause."""
+  """Corrupted outputs that Trace_Relabel must reject (the binding self-test): every clause at least once,
+  plus one admissible control case that must be accepted."""
   old = [[0, 1], [0, 3]]
   def case(req, adj, new, exc=""):
     return {"inp": {"emb": "selftest", "ex": [], "req": [], "keys": [], "reqs": []},
@@ -242,7 +243,7 @@ def run(ctx):
   embs = ["sparse", "dense", "mixed", "denseu"] + ([] if ctx.quick else ["denseb"])
   inputs, model = fnspec.enumerate_inputs("MC_Relabel", cfg, ctx.workdir)
   ctx.log("TLC enumerated %d inputs (%d distinct states), %.1fs" % (len(inputs), model["distinct"], model["wall"]))
-  rand = random_inputs(ctx.seed, 6000 if ctx.quick else 150000)
+  rand = random_inputs(ctx.seed, 6000 if ctx.quick else 300000)
   # grid inputs and random inputs share the worker runs and the judging JVMs (few, large shards)
   files = fnspec.run_cases("fn_relabel.py", inputs + rand, ctx.workdir, extra={"embs": embs},
                            nshards=8 if ctx.quick else 16)
